@@ -200,7 +200,7 @@ func c16Shapes() []shapeCase {
 			addMessage(f, m)
 			svc(f, "t.v1", "Quote")
 		}),
-		one("recursive message with nullable, timestamp and int64 annotations", func(f M) {
+		one("recursive message with nullable timestamp and int64 annotations", func(f M) {
 			m := message("Ev", optionalField(withOpt(field("note", "string"), "sebuf.http.nullable", true), 0),
 				withOpt(field("n", "int64"), "sebuf.http.int64_encoding", "INT64_ENCODING_NUMBER"),
 				withOpt(msgField("at", ".google.protobuf.Timestamp"), "sebuf.http.timestamp_format", "TIMESTAMP_FORMAT_UNIX_MILLIS"),
